@@ -37,7 +37,9 @@ def to_string(case, patterns=None, dc=None):
             dc = C.build_chain(case)
         if patterns is None:
             return dc.to_string()
-        with DescriptorFormat(patterns[0], patterns[1]):
+        ctx = DescriptorFormat(patterns[0], patterns[1])
+        DescriptorFormat("{mother} ?? {daughters}", "({mother} ?? {daughters})")  # another object prepared meanwhile, never entered
+        with ctx:
             # an inner block that has been left, and a rejected pair, leave the chosen patterns in force
             with DescriptorFormat("{mother} ~> {daughters}", "<<{mother} ~> {daughters}>>"):
                 pass
